@@ -11,6 +11,9 @@ def dispatch (p : String) (inp obs : Json) : Drv.Res :=
   | "C14" => Drv.c14 inp obs
   | "C12" => Drv.c12 inp obs
   | "PUB" => Drv.pubGeneric p inp obs
+  | "C09" => Drv.c09 inp obs
+  | "C07" => Drv.c07 inp obs
+  | "C10" => Drv.c10 inp obs
   | _ => { agree := false, specOk := false, why := s!"unknown property {p}" }
 
 def handleLine (line : String) : String :=
